@@ -244,6 +244,8 @@ class Instantiator:
         with warnings.catch_warnings():
             warnings.simplefilter("ignore")
             try:
+                for xp in self.case.get("extra_pipes", []):     # unrelated tables (stale-reference probes)
+                    self.pipe(xp)
                 self.out.table = self.pipe(self.case["pipe"])
             except _Abort:
                 pass
